@@ -7,6 +7,7 @@ from pyvc import values as V
 from pyvc.values import Val, INT, BOOL, REAL, TD, IntS, RealS, SeqS, ConcS
 from pyvc.objects import Closure
 from pyvc import floats
+from pyvc import quant as Q
 
 SEC = z3.Function("SEC", z3.IntSort(), z3.RealSort(), z3.IntSort(), z3.RealSort())
 
@@ -26,52 +27,15 @@ def sp_iff(eng, st, a, b):
 def _quant(eng, st, lo, hi, fn, is_forall):
     if not (isinstance(fn.shape, ConcS) and isinstance(fn.d, Closure)):
         raise TypeError("forall/exists needs a lambda")
-    k = z3.Int(V.fresh_name("q"))
     lo_, hi_ = eng._int(eng.as_sym(lo)), eng._int(eng.as_sym(hi))
-    eng.quant_depth = getattr(eng, "quant_depth", 0) + 1
-    try:
-        body = _truth(eng, st, eng.call_closure(fn.d, [V.vint(k)], {}, st))
-    finally:
-        eng.quant_depth -= 1
-    rng = z3.And(k >= lo_, k < hi_)
-    pats = index_patterns(body, k)
-    if is_forall:
-        return V.vbool(z3.ForAll([k], z3.Implies(rng, body), patterns=pats) if pats
-                       else z3.ForAll([k], z3.Implies(rng, body)))
-    return V.vbool(z3.Exists([k], z3.And(rng, body), patterns=pats) if pats
-                   else z3.Exists([k], z3.And(rng, body)))
 
-
-def _mentions(t, k, cache):
-    i = t.get_id()
-    if i in cache:
-        return cache[i]
-    r = z3.eq(t, k) or any(_mentions(c, k, cache) for c in t.children())
-    cache[i] = r
-    return r
-
-
-def index_patterns(body, k, limit=6):
-    """Triggers for a quantifier over a sequence index: every array read `A[k]` (A not
-    mentioning k) is an alternative single-term pattern, so any ground read of A instantiates
-    the quantifier.  Falls back to z3's own choice when there is none."""
-    cache = {}
-    found = {}
-    seen = set()
-    stack = [body]
-    while stack:
-        t = stack.pop()
-        if t.get_id() in seen:
-            continue
-        seen.add(t.get_id())
-        if z3.is_quantifier(t):
-            continue
-        if z3.is_select(t) and z3.eq(t.arg(1), k) and not _mentions(t.arg(0), k, cache):
-            found[t.get_id()] = t
-        stack.extend(t.children())
-    pats = list(found.values())
-    pats.sort(key=lambda t: t.sexpr())
-    return pats[:limit]
+    def body(k):
+        eng.quant_depth = getattr(eng, "quant_depth", 0) + 1
+        try:
+            return _truth(eng, st, eng.call_closure(fn.d, [V.vint(k)], {}, st))
+        finally:
+            eng.quant_depth -= 1
+    return V.vbool((Q.forall if is_forall else Q.exists)(eng, lo_, hi_, body))
 
 
 def sp_forall(eng, st, lo, hi, fn):
@@ -172,27 +136,31 @@ def _be_parts(be: Val):
             field_array(ev, "_proximal_bpm_event_index"), ev.d[1], be.d["resolution"].d)
 
 
-def sorted_ticks_z3(tick, n):
-    i, j = z3.Int(V.fresh_name("si")), z3.Int(V.fresh_name("sj"))
-    return z3.ForAll([i, j], z3.Implies(z3.And(0 <= i, i < j, j < n), tick[i] < tick[j]))
+def sorted_ticks_z3(eng, tick, n):
+    return Q.forall(eng, z3.IntVal(0), n, lambda i: Q.forall(eng, i + 1, n, lambda j: tick[i] < tick[j], "sj"), "si")
 
 
 def sp_sorted_ticks(eng, st, be):
     tick, ts, bpm, idx, n, res = _be_parts(eng.as_sym(be))
-    return V.vbool(sorted_ticks_z3(tick, n))
+    return V.vbool(sorted_ticks_z3(eng, tick, n))
 
 
 def gov_z3(eng, tick, n, t):
     """GOV(tick, n, t) = the largest k < n with tick[k] <= t.  Defined (one universally
     quantified axiom per tick array, triggered on GOV terms) whenever tick[0] <= t."""
+    def body(g, tt):
+        return z3.And(0 <= g, g < n, tick[g] <= tt, Q.forall(eng, g + 1, n, lambda j: tick[j] > tt, "gj"))
+    if getattr(eng, "finite", None) is not None:
+        # refutation search: instantiate the definition at this use
+        g = GOV(tick, n, t)
+        eng.ctx.axioms.append(z3.Implies(z3.And(n >= 1, tick[0] <= t), body(g, t)))
+        return g
     key = ("gov", tick.get_id(), n.get_id())
     if key not in eng.ctx.spec_cache:
         eng.ctx.spec_cache[key] = True
-        tt, j = z3.Int(V.fresh_name("gt")), z3.Int(V.fresh_name("gj"))
+        tt = z3.Int(V.fresh_name("gt"))
         g = GOV(tick, n, tt)
-        body = z3.And(0 <= g, g < n, tick[g] <= tt,
-                      z3.ForAll([j], z3.Implies(z3.And(g < j, j < n), tick[j] > tt)))
-        eng.ctx.axioms.append(z3.ForAll([tt], z3.Implies(z3.And(n >= 1, tick[0] <= tt), body), patterns=[g]))
+        eng.ctx.axioms.append(z3.ForAll([tt], z3.Implies(z3.And(n >= 1, tick[0] <= tt), body(g, tt)), patterns=[g]))
     return GOV(tick, n, t)
 
 
@@ -214,32 +182,27 @@ def sp_TS(eng, st, be, t):
     return V.vtd(ts_z3(eng, eng.as_sym(be), eng._int(eng.as_sym(t))))
 
 
-def wf_z3(be: Val):
+def wf_z3(eng, be: Val):
     tick, ts, bpm, idx, n, res = _be_parts(be)
-    k = z3.Int(V.fresh_name("wk"))
-    chain = z3.ForAll([k], z3.Implies(
-        z3.And(0 <= k, k < n - 1),
-        z3.And(bpm[k] > 0, ts[k + 1] == ts[k] + floats.TDf(SEC(tick[k + 1] - tick[k], bpm[k], res)))))
-    k2 = z3.Int(V.fresh_name("wk"))
-    idxs = z3.ForAll([k2], z3.Implies(z3.And(0 <= k2, k2 < n), idx[k2] == k2))
-    return z3.And(res >= 1, n >= 1, tick[0] == 0, ts[0] == 0, sorted_ticks_z3(tick, n), chain, idxs)
+    chain = Q.forall(eng, z3.IntVal(0), n - 1, lambda k: z3.And(
+        bpm[k] > 0, ts[k + 1] == ts[k] + floats.TDf(SEC(tick[k + 1] - tick[k], bpm[k], res))), "wk")
+    idxs = Q.forall(eng, z3.IntVal(0), n, lambda k: idx[k] == k, "wk")
+    return z3.And(res >= 1, n >= 1, tick[0] == 0, ts[0] == 0, sorted_ticks_z3(eng, tick, n), chain, idxs)
 
 
 def sp_WF(eng, st, be):
-    return V.vbool(wf_z3(eng.as_sym(be)))
+    return V.vbool(wf_z3(eng, eng.as_sym(be)))
 
 
-def env_z3(be: Val):
+def env_z3(eng, be: Val):
     """Numeric envelope in which the float model is valid (implied by the properties' bounds)."""
     tick, ts, bpm, idx, n, res = _be_parts(be)
-    k = z3.Int(V.fresh_name("ek"))
-    return z3.And(res <= BIG, z3.ForAll([k], z3.Implies(
-        z3.And(0 <= k, k < n),
-        z3.And(tick[k] >= -BIG, tick[k] <= BIG, bpm[k] <= 10**9, z3.Or(bpm[k] <= 0, 1024 * bpm[k] >= 1)))))
+    return z3.And(res <= BIG, Q.forall(eng, z3.IntVal(0), n, lambda k: z3.And(
+        tick[k] >= -BIG, tick[k] <= BIG, bpm[k] <= 10**9, z3.Or(bpm[k] <= 0, 1024 * bpm[k] >= 1)), "ek"))
 
 
 def sp_ENV(eng, st, be):
-    return V.vbool(env_z3(eng.as_sym(be)))
+    return V.vbool(env_z3(eng, eng.as_sym(be)))
 
 
 def _rx_of(eng, key_val):
